@@ -526,7 +526,52 @@ fn price_graph(rng: &mut Rng) -> (String, &'static str) {
 /// tokens of 70 000 characters (account, commodity, payee, code, note; also on a posting that has
 /// only a balance assertion); (2) one expression of 100 000 terms.
 fn run_large_case(ctx: &Ctx, rng: &mut Rng, rec: &mut Recorder, i: u64) {
-    match i % 3 {
+    match i % 4 {
+        3 => {
+            // a price database of 200 000 - 400 000 lines for one pair, newest first (or oldest first)
+            let n = if ctx.tier == Tier::Thorough { 200_000 + rng.usize(200_001) } else { 200_000 };
+            let newest_first = rng.chance(3, 4);
+            let start = chrono::NaiveDate::from_ymd_opt(1500, 1, 1).unwrap();
+            let mut db = String::with_capacity(n * 32);
+            for k in 0..n {
+                let day = if newest_first { n - 1 - k } else { k };
+                let d = start + chrono::Duration::days(day as i64);
+                db.push_str(&format!("P {} AAA {}.{:02} BBB\n", d.format("%Y/%m/%d"), 1 + k % 7, k % 100));
+            }
+            let dir = ctx.scratch.join("c06large");
+            let _ = std::fs::create_dir_all(&dir);
+            let (lp, dp) = (dir.join("small.ledger"), dir.join("prices.db"));
+            let ledger = "2024/01/01 hold\n    Assets:Fund    10 AAA\n    Equity:Opening\n";
+            if std::fs::write(&lp, ledger).is_err() || std::fs::write(&dp, &db).is_err() {
+                rec.skip();
+                return;
+            }
+            rec.nontrivial(&format!("large-price-db-{}-{}", n, newest_first));
+            rec.count_n("large-price-db:lines", n as u64);
+            let (l, d) = (lp.to_string_lossy().into_owned(), dp.to_string_lossy().into_owned());
+            for cmd in [vec!["balance", "--now", "2024-06-01", "-X", "BBB", "--price-db", d.as_str(), l.as_str()], vec!["balance", "--now", "2024-06-01", "-X", "BBB", "--historical", "--price-db", d.as_str(), l.as_str()]] {
+                rec.op("okane balance --price-db (large price database)", &format!("{} price lines, {}", n, if newest_first { "newest first" } else { "oldest first" }));
+                let Ok(out) = cli::run_okane(&ctx.cli_a, &cmd, &dir) else {
+                    rec.skip();
+                    continue;
+                };
+                let class = out.class();
+                rec.count(&format!("cli-large-price-db:{}", class));
+                if class != "ok" {
+                    let what = match out.signal {
+                        Some(sig) if sig == libc::SIGXCPU || sig == libc::SIGKILL => "hang".to_string(),
+                        _ => class.clone(),
+                    };
+                    rec.violation(
+                        "cli-abnormal-exit",
+                        &format!("balance|{}|large-price-db", what),
+                        &format!("okane balance -X with a price database of {} lines ({}) ended with {} (limit: 10 CPU-seconds)", n, if newest_first { "newest first" } else { "oldest first" }, class),
+                        json!({"argv": cmd, "lines": n, "newest_first": newest_first, "status": class, "stderr": out.stderr.chars().take(600).collect::<String>()}),
+                    );
+                }
+            }
+            let _ = std::fs::remove_file(&dp);
+        }
         0 => {
             let n = if ctx.tier == Tier::Thorough { 60_000 + rng.usize(60_001) } else { 40_000 };
             let mut text = String::with_capacity(n * 70);
@@ -608,7 +653,7 @@ fn plan(tier: Tier) -> Plan {
         includes: tier.pick(3_000, 100_000),
         deep: (DEPTHS.len() * 4 + RIGHT_NESTED.len()) as u64,
         prices: tier.pick(400, 30_000),
-        large: tier.pick(6, 48),
+        large: tier.pick(8, 48),
         cli: tier.pick(250, 6_000),
     }
 }
@@ -902,7 +947,7 @@ impl Check for C06 {
          ledgers with zeros and boundary values in every slot that accepts a number, and with date-shaped tokens of 5-12 bytes (widths other than 4-2-2, mixed separators) as transaction, effective and lot date; include graphs of 2-5 files with self-includes, \
          cycles (also through edges written as patterns), globs, missing and malformed targets on the in-memory and the real file system; nesting depth 1..30000 of \
          parentheses / unary minus / operator chains within 64 KiB, right-nested operator chains of depth 8..200; a third of the zero-slot ledgers with CRLF line ends, a quarter with multi-byte account names; price graphs with many equally good conversion chains (rows of 5-45 \
-         diamonds, cliques of 5-14, chains of 30-200, grids up to 7x7, random graphs; all rates on 1-3 days); inputs far beyond the usual size (an ordinary ledger of 40 000-120 000 transactions through the binary, single tokens of 70 000 characters, one expression of 100 000 terms); black-box runs of the real binary (format, balance, balance -X, \
+         diamonds, cliques of 5-14, chains of 30-200, grids up to 7x7, random graphs; all rates on 1-3 days); inputs far beyond the usual size (an ordinary ledger of 40 000-120 000 transactions through the binary, single tokens of 70 000 characters, one expression of 100 000 terms, a price database of 200 000-400 000 lines for one pair); black-box runs of the real binary (format, balance, balance -X, \
          --historical, register, accounts, primitive flatten, primitive eval). Operations per input: parse_ledger (+ Display of \
          the error), FormatOptions::format, report::process on the fake file system followed by balance (plain, ranged, -X \
          up-to-date and historical for up to 4 commodities), eval, postings with running totals, report::accounts. Non-trivial = \
